@@ -154,6 +154,7 @@ theorem hosvd_accepts {eigh : Nat → Mat ℝ → List ℝ × Mat ℝ} (hE : Eig
     (hd : X.shape ≠ []) (hpos : ∀ k < X.shape.length, 1 ≤ X.shape.getD k 0) (tol : ℝ)
     (dimorder : Option (List Nat)) (hperm : isPermOf (modeOrder dimorder X.shape.length) X.shape.length = true)
     (seq : Bool) (ranks : Option (List Nat)) (hlen : (reqRanks ranks X.shape.length).length = X.shape.length)
+    (hle : ∀ k < X.shape.length, (reqRanks ranks X.shape.length).getD k 0 ≤ X.shape.getD k 0)
     (hcase : (∀ k < X.shape.length, (reqRanks ranks X.shape.length).getD k 0 ≠ 0) ∨
       ((∀ k, (reqRanks ranks X.shape.length).getD k 0 = 0) ∧ tol ^ 2 < 1 ∧ 0 < normSq X)) :
     ∃ T, hosvd realOps eigh X tol dimorder seq ranks = .ok T := by
@@ -264,7 +265,7 @@ theorem hosvd_accepts {eigh : Nat → Mat ℝ → List ℝ × Mat ℝ} (hE : Eig
   refine ⟨⟨G, st.factors⟩, ?_⟩
   unfold hosvd hosvdRun
   simp only
-  rw [if_neg (by simpa using hlen), if_neg (by simpa using hperm)]
+  rw [if_neg (by simpa using hlen), if_neg (by simpa using ranksExceed_false.2 hle), if_neg (by simpa using hperm)]
   rw [hfold]
   simp only
   rw [hG1]
